@@ -5,6 +5,7 @@ import sys
 import common as c
 import c0809_lib as L
 import c09_contexts as X
+import c09_parser as PH
 
 PID = "C08"
 MANIFEST = {
@@ -106,6 +107,7 @@ def main(argv):
         return res.finish()
     if replay_path:
         return replay(h, cli, replay_path)
+    PH.regen_tables(h, res)      # C08_reparse_* are over gen/Grammar.v, gen/PrecTable.v
     c.proof_step(res, PID)
     clir = L.CliRunner(cli)
     try:
@@ -113,6 +115,7 @@ def main(argv):
         validated = L.correspondence(res, h, clir, rng, 250 if quick else 3000, PID, "c08")
         v2, reattach_viol = L.attach_correspondence(res, h, rng, 300 if quick else 4000, "c08a")
         validated += v2
+        validated += PH.reparse_stream(h, res, c.Rng(seed ^ 0x0C08B), tier, clir)
         for what, src, w, got, expect in reattach_viol[:3]:
             res.violation("re-parsing the formatter's output attaches a comment to a different item or in a "
                           "different role", {"kind": "impl-law", "source": src, "width": w, "driver": "lib",
